@@ -244,7 +244,7 @@ pub fn run(tier: Tier) -> i32 {
     // Synchronisation primitives *inside* snow (none on the pinned tree): when /repo/src mentions any,
     // the exploration is repeated on a copy of the sources in which std/core sync primitives are mapped
     // to shuttle's, so that every atomic / lock operation inside snow is a scheduling point.
-    let (files, hits) = scan_sync_primitives("/repo/src");
+    let (files, hits) = scan_sync_primitives(&std::env::var("SNOW_REPO_SRC").unwrap_or_else(|_| "/repo/src".to_string()));
     ctx.set("repo_src_files_scanned_for_sync_primitives", json!(files));
     ctx.set("repo_src_sync_primitive_mentions", json!(hits));
     if !hits.is_empty() || !quick {
@@ -313,7 +313,7 @@ fn scan_sync_primitives(dir: &str) -> (usize, Vec<String>) {
 }
 
 fn run_mapped_copy(tier: &str) -> Result<serde_json::Value, String> {
-    let out = std::process::Command::new("/verif/harness-c16x/run.sh").arg(tier).output().map_err(|e| e.to_string())?;
+    let out = std::process::Command::new(format!("{}/harness-c16x/run.sh", *crate::ctx::VERIF_DIR)).arg(tier).output().map_err(|e| e.to_string())?;
     let text = String::from_utf8_lossy(&out.stdout);
     let line = text.lines().rev().find(|l| l.starts_with('{')).ok_or("no result")?;
     let v: serde_json::Value = serde_json::from_str(line).map_err(|e| e.to_string())?;
